@@ -86,8 +86,11 @@ class RRELBase:
             intermediate matches. The returned obj can be
             Postponed.
         """
-        if not allowed(obj, lookup_list, self):  # also adjusts visited objs
-            return  # recursion stopper
+        # The visited set guards repeated evaluation only: with first_element
+        # the same (obj, node) means something else (e.g. "start at the model
+        # root") and is evaluated once per query anyway.
+        if not first_element and not allowed(obj, lookup_list, self):
+            return  # recursion stopper (also adjusts visited objs)
 
         obj, lookup_list, matched_path = self.apply(
             obj, lookup_list, matched_path, first_element
@@ -280,7 +283,7 @@ class RRELBrackets(RRELBase):
     def get_next_matches(
         self, obj, lookup_list, allowed, matched_path, first_element=False
     ):
-        if not allowed(obj, lookup_list, self):  # also adjusts visited objs
+        if not first_element and not allowed(obj, lookup_list, self):
             return  # recursion stopper
         yield from self.seq.get_next_matches(
             obj, lookup_list, allowed, matched_path, first_element
@@ -343,7 +346,7 @@ class RRELSequence(RRELBase):
     def get_next_matches(
         self, obj, lookup_list, allowed, matched_path, first_element=False
     ):
-        if not allowed(obj, lookup_list, self):  # also adjusts visited objs
+        if not first_element and not allowed(obj, lookup_list, self):
             return  # recursion stopper
         for ip in self.paths:
             yield from ip.get_next_matches(
@@ -376,7 +379,7 @@ class RRELZeroOrMore(RRELBase):
 
         def get_from_zero_or_more(obj, lookup_list, matched_path, first_element=False):
             assert self.start_locally() or self.start_at_root()  # or, not xor
-            if not allowed(obj, lookup_list, self):  # also adjusts visited objs
+            if not first_element and not allowed(obj, lookup_list, self):
                 return  # recursion stopper
             if first_element:
                 if self.start_locally():
